@@ -132,6 +132,7 @@ type FnCtx struct {
 	curPos      token.Pos
 	entryMeasure *Term
 	retCovers    []*Obligation
+	curBinOp     *ssa.BinOp
 }
 
 type writeLog struct {
